@@ -12,5 +12,5 @@ Skip == l <= Len(Trace) /\ ~Explained(Trace[l]) /\ l' = l + 1 /\ rej' = rej \cup
 Next == Good \/ Skip
 Report == (l = Len(Trace) + 1) =>
             /\ PrintT(<<"DONE", l - 1>>)
-            /\ \A i \in rej : PrintT(<<"REJ", i, IF Trace[i].sent THEN WhyMismatch(Trace[i].raw, Trace[i].id, Trace[i].sni) ELSE "nothing-sent">>)
+            /\ \A i \in rej : PrintT(<<"REJ", ToJson(<<i, ToString(IF Trace[i].sent THEN WhyMismatch(Trace[i].raw, Trace[i].id, Trace[i].sni) ELSE "nothing-sent")>>)>>)
 =============================================================================
